@@ -112,6 +112,23 @@ def run(ctx):
             else:
                 env[v] = rnd.choice(FLTS)
         cases.append((t, env))
+    # equations whose sides differ by one unit in the last place of a LARGE integer (or by 1 at 10^12): unequal sides must raise,
+    # whatever the magnitude; and the equal twin must evaluate
+    X, Y = P.V("x"), P.V("y")
+    for _ in range(ctx.n(60, 600)):
+        b = rnd.choice([10 ** rnd.randint(9, 30), 2 ** rnd.randint(40, 80), 5 * 10 ** 15]) + rnd.randint(0, 9)
+        d = rnd.choice([1, 1, 2, 3, -1])
+        sh = rnd.randrange(5)
+        if sh == 0:
+            cases += [(("eq", X, Y), {ord("x"): b, ord("y"): b + d}), (("eq", X, Y), {ord("x"): b, ord("y"): b})]
+        elif sh == 1:
+            cases += [(("eq", ("add", X, P.C(d)), X), {ord("x"): b}), (("eq", ("add", X, P.C(0)), X), {ord("x"): b})]
+        elif sh == 2:
+            cases += [(("eq", ("mul", P.C(2), X), Y), {ord("x"): b, ord("y"): 2 * b + d}), (("eq", ("mul", P.C(2), X), Y), {ord("x"): b, ord("y"): 2 * b})]
+        elif sh == 3:
+            cases += [(("eq", P.C(b), P.C(b + d)), {}), (("eq", ("sub", Y, X), P.C(0)), {ord("x"): b, ord("y"): b + d})]
+        else:
+            cases += [(("eq", ("mul", X, X), ("add", ("mul", X, X), P.C(d))), {ord("x"): b})]
     lines = [f"EVAL {P.sx_text(t)} ; " + " ".join(f"{k}={num_arg(x)}" for k, x in env.items()) for t, env in cases]
     model = common.drive(lines) if ctx.driver_ok else [None] * len(cases)
     for (t, env), m in zip(cases, model):
@@ -157,6 +174,10 @@ def run(ctx):
                         res.failures.append(dict(**{"class": "wrong-value"}, input=inp, detail=f"evaluated to {v!r}, exact value {ref}"))
                 elif abs(F(fv) - ref) > F(1, 10 ** 9) * max(1, abs(ref), py_ref.scale):
                     res.failures.append(dict(**{"class": "wrong-value"}, input=inp, detail=f"evaluated to {v!r}, exact value {ref}"))
+        elif (not missing and ref is None and py[0] == "OK" and t[0] == "eq" and int_only(t, env)
+              and py_ref(t[1], env) is not None and py_ref(t[2], env) is not None and py_ref(t[1], env) != py_ref(t[2], env)):
+            res.failures.append(dict(**{"class": "unequal-equation-accepted"}, input=inp,
+                                     detail=f"sides are {py_ref(t[1], env)} and {py_ref(t[2], env)} but evaluate returned {py[1]!r} instead of raising"))
         elif not missing and ref is not None and py[0] == "EXC":
             res.failures.append(dict(**{"class": "defined-raises"}, input=inp, detail=f"raises {py[1]} although the exact value is {ref}"))
         if len(res.samples) < 6 and P.sx_size(t) > 5:
